@@ -11,9 +11,27 @@ import subprocess
 import time
 
 VERIF = os.path.dirname(os.path.dirname(os.path.abspath(__file__)))
-KANI_DIR = os.path.join(VERIF, "kani")
-BUILD = os.path.join(VERIF, ".build")
+# VERIF_REPO / VERIF_BUILD let the same machinery run against a scratch worktree of the
+# repository (seeded-defect experiments) without touching /repo; the registered checks
+# never set them.
+REPO = os.environ.get("VERIF_REPO", "/repo").rstrip("/")
+BUILD = os.environ.get("VERIF_BUILD", os.path.join(VERIF, ".build"))
+KANI_SRC = os.path.join(VERIF, "kani")
+KANI_DIR = KANI_SRC if REPO == "/repo" else os.path.join(BUILD, "kani-src")
 TARGET = os.path.join(BUILD, "kani")
+
+
+def _mirror_crate():
+    """scratch-repo mode: copy the harness crate with its path deps re-pointed"""
+    if KANI_DIR == KANI_SRC:
+        return
+    os.makedirs(BUILD, exist_ok=True)
+    if os.path.exists(KANI_DIR):
+        shutil.rmtree(KANI_DIR)
+    shutil.copytree(KANI_SRC, KANI_DIR, ignore=shutil.ignore_patterns("target", "Cargo.lock"))
+    p = os.path.join(KANI_DIR, "Cargo.toml")
+    t = open(p).read().replace('"/repo/', '"%s/' % REPO)
+    open(p, "w").write(t)
 ENV = dict(os.environ)
 ENV.update({
     "CARGO_NET_OFFLINE": "true",
@@ -26,7 +44,8 @@ VMEM_KB = 14_000_000
 
 def _sync_lock():
     """the harness crate resolves against /repo's own lock file (offline, same versions)"""
-    src = "/repo/Cargo.lock"
+    _mirror_crate()
+    src = os.path.join(REPO, "Cargo.lock")
     dst = os.path.join(KANI_DIR, "Cargo.lock")
     want = open(src).read()
     have = open(dst).read() if os.path.exists(dst) else ""
